@@ -96,6 +96,10 @@ def create_tree_using_stacks(g: Grammar, r: ListWrapper, failures_limit=100):
             # print("..........")
             # print(target_type, "|", stacks)
             if is_abstract(target_type):
+                if not g.alternatives.get(target_type):
+                    # an abstract type without any production cannot be built
+                    failures += 1
+                    continue
                 concrete = r.choice(g.alternatives[target_type])
                 if stacks[concrete]:
                     v = stacks[concrete].pop(0)
